@@ -4,108 +4,115 @@
     abstract specification (Lfu/LfuSpec.v);  [R]: the refinement relation
     (Lfu/LfuProofs.v);  [sval]/[suses]/[evicted_by_set]/[evicts]/[undisturbed]:
     observers of the specification state (Lfu/LfuSpecProps.v).
-    Every statement quantifies over ALL operation sequences / states. *)
+    Every statement quantifies over ALL operation sequences / states, and over
+    the type [val] of the stored content (the cache never inspects it). *)
 From Coq Require Import List ZArith Arith Sorted.
 Import ListNotations.
 From DD Require Import Lfu.LfuModel Lfu.LfuSpec Lfu.LfuInv Lfu.LfuSpecProps Lfu.LfuProofs.
+From DD Require Import Lfu.LfuRtModel Lfu.LfuRtProofs.
 
 (** ** The model: structural invariant after every operation sequence *)
-Theorem C18_inv : forall (c : nat) (ops : list op), 1 <= c ->
+Theorem C18_inv : forall (val : Type) (c : nat) (ops : list (op val)), 1 <= c ->
   let s := state_of c ops in
   StronglySorted lt (map freq (buckets s)) /\          (* frequencies strictly ascending *)
   Forall (fun b => items b <> []) (buckets s) /\       (* no empty frequency node *)
   NoDup (map fst (flat_map items (buckets s))) /\      (* every key linked once *)
   size s <= cap s /\ cap s = c.                        (* never more than capacity keys *)
-Proof. exact lfu_inv. Qed.
+Proof. exact (@lfu_inv). Qed.
 Print Assumptions C18_inv.
 
 (** ** The model refines the specification: equal get outputs on every sequence *)
-Theorem C18_refines_spec : forall (c : nat) (ops : list op), 1 <= c ->
+Theorem C18_refines_spec : forall (val : Type) (c : nat) (ops : list (op val)), 1 <= c ->
   snd (run (empty c) ops) = snd (srun (sempty c) ops) /\
   R (state_of c ops) (fst (srun (sempty c) ops)).
-Proof. exact lfu_refines_spec. Qed.
+Proof. exact (@lfu_refines_spec). Qed.
 Print Assumptions C18_refines_spec.
 
 (** simulation step from any reachable pair of states *)
-Theorem C18_step_refines : forall (c : nat) (ops : list op) (o : op), 1 <= c ->
+Theorem C18_step_refines : forall (val : Type) (c : nat) (ops : list (op val)) (o : op val), 1 <= c ->
   let s := state_of c ops in let sp := fst (srun (sempty c) ops) in
   snd (step s o) = snd (sstep sp o) /\ R (fst (step s o)) (fst (sstep sp o)).
-Proof. exact lfu_step_refines. Qed.
+Proof. exact (@lfu_step_refines). Qed.
 Print Assumptions C18_step_refines.
 
 (** the model's key table (presence, value, frequency of the node's bucket)
     is the spec's (presence, value, number of uses); same number of keys *)
-Theorem C18_state_agrees : forall (c : nat) (ops : list op) (k : key), 1 <= c ->
+Theorem C18_state_agrees : forall (val : Type) (c : nat) (ops : list (op val)) (k : key), 1 <= c ->
   let s := state_of c ops in let sp := fst (srun (sempty c) ops) in
   find_key k (buckets s) =
     match sval sp k, suses sp k with Some v, Some u => Some (u, v) | _, _ => None end /\
   contains s k = (if sval sp k then true else false) /\
   size s = length (entries sp).
-Proof. exact lfu_state_agrees. Qed.
+Proof. exact (@lfu_state_agrees). Qed.
 Print Assumptions C18_state_agrees.
 
 (** ** (a) a get returns the last value set for the key unless it was evicted *)
-Theorem C18_last_value : forall (c : nat) (pre : list op) (k : key) (v : val) (mid : list op), 1 <= c ->
+Theorem C18_last_value : forall (val : Type) (c : nat) (pre : list (op val)) (k : key) (v : val) (mid : list (op val)), 1 <= c ->
   undisturbed (fst (srun (sempty c) (pre ++ [OSet k v]))) k mid ->
   snd (run (empty c) (pre ++ OSet k v :: mid ++ [OGet k])) =
   snd (run (empty c) (pre ++ OSet k v :: mid)) ++ [Some v].
-Proof. exact lfu_last_value. Qed.
+Proof. exact (@lfu_last_value). Qed.
 Print Assumptions C18_last_value.
 
-Theorem C18_evicted_gone : forall (c : nat) (pre : list op) (o : op) (k : key), 1 <= c ->
+Theorem C18_set_then_find : forall (val : Type) (c : nat) (ops : list (op val)) (k : key) (v : val), 1 <= c ->
+  exists u, find_key k (buckets (state_of c (ops ++ [OSet k v]))) = Some (u, v).
+Proof. exact (@lfu_set_then_find). Qed.
+Print Assumptions C18_set_then_find.
+
+Theorem C18_evicted_gone : forall (val : Type) (c : nat) (pre : list (op val)) (o : op val) (k : key), 1 <= c ->
   evicts (fst (srun (sempty c) pre)) o k ->
   snd (run (empty c) (pre ++ [o; OGet k])) = snd (run (empty c) pre) ++ [None].
-Proof. exact lfu_evicted_gone. Qed.
+Proof. exact (@lfu_evicted_gone). Qed.
 Print Assumptions C18_evicted_gone.
 
 (** the per-operation facts behind (a), on the specification *)
-Theorem C18_get_returns_value : forall (s : spec) (k k' : key),
+Theorem C18_get_returns_value : forall (val : Type) (s : spec val) (k k' : key),
   snd (sget s k) = sval s k /\ sval (fst (sget s k)) k' = sval s k'.
-Proof. exact sget_returns. Qed.
+Proof. exact (@sget_returns). Qed.
 Print Assumptions C18_get_returns_value.
 
-Theorem C18_set_then_value : forall (s : spec) (k : key) (v : val) (k' : key),
+Theorem C18_set_then_value : forall (val : Type) (s : spec val) (k : key) (v : val) (k' : key),
   sval (sset s k v) k = Some v /\
   (k' <> k ->
    sval (sset s k v) k' =
    if match evicted_by_set s k with Some x => Z.eqb x k' | None => false end then None else sval s k').
-Proof. exact sset_values. Qed.
+Proof. exact (@sset_values). Qed.
 Print Assumptions C18_set_then_value.
 
 (** ** (b) never more than capacity keys (model and spec) *)
-Theorem C18_bounded : forall (c : nat) (ops : list op), 1 <= c -> size (state_of c ops) <= c.
-Proof. exact lfu_bounded. Qed.
+Theorem C18_bounded : forall (val : Type) (c : nat) (ops : list (op val)), 1 <= c -> size (state_of c ops) <= c.
+Proof. exact (@lfu_bounded). Qed.
 Print Assumptions C18_bounded.
 
-Theorem C18_spec_bounded : forall (c : nat) (ops : list op), 1 <= c ->
+Theorem C18_spec_bounded : forall (val : Type) (c : nat) (ops : list (op val)), 1 <= c ->
   let s := fst (srun (sempty c) ops) in
   length (entries s) <= c /\ NoDup (map ekey (entries s)).
-Proof. exact spec_bounded. Qed.
+Proof. exact (@spec_bounded). Qed.
 Print Assumptions C18_spec_bounded.
 
 (** ** (c) one use per successful get, for that key only; a failed get and a set count nothing *)
-Theorem C18_one_use_per_hit : forall (s : spec) (k : key) (u : nat),
+Theorem C18_one_use_per_hit : forall (val : Type) (s : spec val) (k : key) (u : nat),
   suses s k = Some u ->
   suses (fst (sget s k)) k = Some (S u) /\
   (forall k', k' <> k -> suses (fst (sget s k)) k' = suses s k').
-Proof. exact sget_hit_uses. Qed.
+Proof. exact (@sget_hit_uses). Qed.
 Print Assumptions C18_one_use_per_hit.
 
-Theorem C18_miss_changes_nothing : forall (s : spec) (k : key),
+Theorem C18_miss_changes_nothing : forall (val : Type) (s : spec val) (k : key),
   suses s k = None -> sget s k = (s, None).
-Proof. exact sget_miss_nothing. Qed.
+Proof. exact (@sget_miss_nothing). Qed.
 Print Assumptions C18_miss_changes_nothing.
 
-Theorem C18_set_counts_nothing : forall (s : spec) (k : key) (v : val) (k' : key),
+Theorem C18_set_counts_nothing : forall (val : Type) (s : spec val) (k : key) (v : val) (k' : key),
   suses (sset s k v) k' =
   if Z.eqb k k' then Some (match suses s k with Some u => u | None => 0 end)
   else if match evicted_by_set s k with Some x => Z.eqb x k' | None => false end
        then None else suses s k'.
-Proof. exact sset_uses. Qed.
+Proof. exact (@sset_uses). Qed.
 Print Assumptions C18_set_counts_nothing.
 
 (** ** (d) the eviction victim: fewest uses, first (= longest at that count) among ties; nothing else is removed *)
-Theorem C18_eviction_victim : forall (s : spec) (k : key) (v : val),
+Theorem C18_eviction_victim : forall (val : Type) (s : spec val) (k : key) (v : val),
   NoDup (map ekey (entries s)) -> sval s k = None -> 1 <= scap s <= length (entries s) ->
   exists l1 e l2,
     entries s = l1 ++ e :: l2 /\
@@ -113,11 +120,54 @@ Theorem C18_eviction_victim : forall (s : spec) (k : key) (v : val),
     (forall x, In x l1 -> euses e < euses x) /\
     evicted_by_set s k = Some (ekey e) /\
     entries (sset s k v) = l1 ++ l2 ++ [mkE k v 0].
-Proof. exact sset_evicts. Qed.
+Proof. exact (@sset_evicts). Qed.
 Print Assumptions C18_eviction_victim.
 
-Theorem C18_no_eviction_otherwise : forall (s : spec) (k : key),
+Theorem C18_no_eviction_otherwise : forall (val : Type) (s : spec val) (k : key),
   (sval s k <> None -> evicted_by_set s k = None) /\
   (length (entries s) < scap s -> evicted_by_set s k = None).
-Proof. exact no_eviction_otherwise. Qed.
+Proof. exact (@no_eviction_otherwise). Qed.
 Print Assumptions C18_no_eviction_otherwise.
+
+(** ** Extension: set(key, report_type, value) with defaultdict(SetOrdered) content
+    (Lfu/LfuRtModel.v).  A trace with report types is a trace of the generic model
+    at [val := content] on the lowered operations, so all statements above apply. *)
+Theorem C18_rt_lowers : forall (c : nat) (ops : list rop),
+  rstate_of c ops = state_of c (lower_ops (empty c) ops) /\
+  get_outs (snd (rrun (empty c) ops)) = snd (run (empty c) (lower_ops (empty c) ops)).
+Proof. exact rt_lowers. Qed.
+Print Assumptions C18_rt_lowers.
+
+Theorem C18_rt_inv : forall (c : nat) (ops : list rop), 1 <= c ->
+  let s := rstate_of c ops in
+  StronglySorted lt (map freq (buckets s)) /\
+  Forall (fun b => items b <> []) (buckets s) /\
+  NoDup (map fst (flat_map items (buckets s))) /\
+  size s <= cap s /\ cap s = c.
+Proof. exact rt_inv. Qed.
+Print Assumptions C18_rt_inv.
+
+Theorem C18_rt_refines_spec : forall (c : nat) (ops : list rop), 1 <= c ->
+  get_outs (snd (rrun (empty c) ops)) = snd (srun (sempty c) (lower_ops (empty c) ops)) /\
+  R (rstate_of c ops) (fst (srun (sempty c) (lower_ops (empty c) ops))).
+Proof. exact rt_refines_spec. Qed.
+Print Assumptions C18_rt_refines_spec.
+
+(** a set raises exactly when a report type is given for a key whose content is a
+    plain value, and then the cache is unchanged *)
+Theorem C18_rt_raises_iff : forall (s : lfu content) (k : key) (rt : option rtype) (v : Z),
+  snd (set_rt s k rt v) = true <->
+  exists r u x, rt = Some r /\ find_key k (buckets s) = Some (u, CVal x).
+Proof. exact rt_raises_iff. Qed.
+Print Assumptions C18_rt_raises_iff.
+
+Theorem C18_rt_raise_keeps_state : forall (s : lfu content) (k : key) (rt : option rtype) (v : Z),
+  snd (set_rt s k rt v) = true -> fst (set_rt s k rt v) = s.
+Proof. exact rt_raise_keeps_state. Qed.
+Print Assumptions C18_rt_raise_keeps_state.
+
+Theorem C18_rt_set_then_find : forall (c : nat) (ops : list rop) (k : key) (rt : option rtype) (v : Z) (cnt : content),
+  1 <= c -> lower (rstate_of c ops) k rt v = Some cnt ->
+  exists u, find_key k (buckets (rstate_of c (ops ++ [RSet k rt v]))) = Some (u, cnt).
+Proof. exact rt_set_then_find. Qed.
+Print Assumptions C18_rt_set_then_find.
